@@ -39,7 +39,7 @@ type HubCase struct {
 	Second string `json:"second,omitempty"`
 }
 
-var hubMuts = []string{"none", "none", "hub-pays-extra", "hub-pays-other-share", "peer-pays-less", "amount+1", "other-locked-added", "imap-swapped", "imap-swapped-consistent", "imap-swapped-consistent"}
+var hubMuts = []string{"none", "none", "hub-pays-extra", "hub-pays-other-share", "peer-pays-less", "amount+1", "other-locked-added", "imap-swapped", "imap-swapped-consistent", "imap-swapped-consistent", "imap-both-hub"}
 var hubSettleMuts = []string{"none", "none", "hub-gets-less", "peer-gets-all", "keep-suballoc", "other-final", "other-final", "relabel-other-locked", "other-locked-imap"}
 
 func drawHubCase(t *rapid.T) HubCase {
@@ -230,6 +230,13 @@ func runHubCase(c HubCase) *h.Outcome {
 		case "imap-swapped":
 			imap[0], imap[1] = imap[1], imap[0]
 			sa.IndexMap = imap
+		case "imap-both-hub":
+			// an index map that is not injective: both participants of the virtual
+			// channel are mapped to the hub, which is debited the whole amount
+			imap[0], imap[1] = channel.Index(hI), channel.Index(hI)
+			sa.IndexMap = imap
+			s.Balances[0][mI] = new(big.Int).Set(cur.Balances[0][mI])
+			s.Balances[0][hI] = new(big.Int).Sub(cur.Balances[0][hI], vtotal)
 		case "imap-swapped-consistent":
 			// a proposal that is consistent in itself - index map swapped AND the
 			// debits made according to the swapped map: the hub would front the
@@ -381,10 +388,22 @@ func runHubCase(c HubCase) *h.Outcome {
 		}
 		if fundedWith[0] != nil && fundedWith[1] != nil {
 			// in each of its two ledger channels the hub stands in for the participant
-			// at the far end: every participant of the funded channel exactly once
+			// at the far end.  It pays participant v's share once per ledger channel
+			// in which it stands in for v and gets v's final balance back as often: if
+			// it stands in for v more often than for the other participant and v has
+			// funds in the channel, a final state that moves them to the other
+			// participant costs the hub that share.
+			cnt := [2]int{}
 			for v := 0; v < 2; v++ {
-				if fundedWith[0][v] == fundedWith[1][v] {
-					return h.Failf("hub-countersigned-unsafe:vcfund:hub-fronts-participant-twice-or-never", "the hub signed the funding of one virtual channel on its two ledger channels with index maps under which it stands in for participant %d in %s of them: its balance changes are not the balances of the far-end participants", v, map[bool]string{true: "both", false: "neither"}[fundedWith[0][v]])
+				for i := 0; i < 2; i++ {
+					if fundedWith[i][v] {
+						cnt[v]++
+					}
+				}
+			}
+			for v := 0; v < 2; v++ {
+				if cnt[v] > cnt[1-v] && v0.State.Balances[0][v].Sign() > 0 {
+					return h.Failf("hub-countersigned-unsafe:vcfund:hub-fronts-participant-twice-or-never", "the hub signed the funding of one virtual channel on its two ledger channels with index maps under which it stands in for participant %d (share %v) in %d of them and for the other participant in %d: a final state that moves participant %d's share to the other one costs the hub that share", v, v0.State.Balances[0][v], cnt[v], cnt[1-v], v)
 				}
 			}
 		}
